@@ -591,7 +591,9 @@ impl Ctx {
                 results.push((cov, fail.map(|(c, f)| (serde_json::to_value(&c).unwrap_or(Value::Null), f)), ks));
             }
         } else {
-            let exe = std::env::current_exe().expect("current_exe");
+            // /proc/self/exe stays valid when the file on disk is replaced by a concurrent rebuild
+            let proc_exe = std::path::PathBuf::from("/proc/self/exe");
+            let exe = if proc_exe.exists() { proc_exe } else { std::env::current_exe().expect("current_exe") };
             let mut children = vec![];
             for sh in 0..shards {
                 let n = per + if sh < extra { 1 } else { 0 };
